@@ -200,3 +200,49 @@ Example C03_fast_config_valid :
   validb [2; 3] (singleton_mis 2) [[1; 1]; [1; 2]; [2; 0]] = true /\
   c03_okb [[1; 1]; [1; 2]; [2; 0]] (obs_calls_fast [2; 3] [[1; 1]; [1; 2]; [2; 0]]) = true.
 Proof. vm_compute. split; reflexivity. Qed.
+
+(* ================================================================== no handshake condition (fast / network) *)
+(* The uniformity theorems above hold for EVERY joint degree sequence.  For the fast / network generator so does
+   the map "calls -> placement": grouper() hands a short last group to the callback as it is, hence the calls carry
+   the whole shuffled stub list whatever its length.  c03_check therefore judges non-divisible sequences of the
+   fast / network generator too (hypothesis [validb_nohs]: rectangular jds, a positive size per topology). *)
+Theorem C03_nohs_hypothesis_decided : forall sizes jds, validb_nohs sizes jds = true <-> ValidNH sizes jds.
+Proof. exact validb_nohs_ValidNH. Qed.
+Print Assumptions C03_nohs_hypothesis_decided.
+
+Theorem C03_handshake_case_is_special : forall sizes mis jds, Valid sizes mis jds -> ValidNH sizes jds.
+Proof. exact Valid_ValidNH. Qed.
+Print Assumptions C03_handshake_case_is_special.
+
+Theorem C03_placement_fast_is_shuffle_any_length : forall sizes jds pis,
+  ValidNH sizes jds ->
+  placement sizes (singleton_mis (ncols jds)) (ncols jds)
+            (map flat_call (fst (plan_fast sizes jds pis))) =
+  shuffle_all pis (all_stubs jds).
+Proof. exact placement_fast_nohs. Qed.
+Print Assumptions C03_placement_fast_is_shuffle_any_length.
+
+Theorem C03_fast_calls_pass_checker_any_length : forall sizes jds,
+  ValidNH sizes jds -> c03_okb jds (obs_calls_fast sizes jds) = true.
+Proof. exact fast_calls_pass_c03_okb_nohs. Qed.
+Print Assumptions C03_fast_calls_pass_checker_any_length.
+
+(* non-vacuity: three / five vertices of degree one with 2-cliques, four with 3-cliques violate the handshake
+   condition, meet the weaker hypothesis, and the checker accepts the model's histogram by computation; the
+   stub left over is each vertex equally often (3 placements of weight 2; here as counts of the last slot) *)
+Example C03_odd_one_out :
+  validb [2] (singleton_mis 1) [[1]; [1]; [1]] = false /\
+  validb_nohs [2] [[1]; [1]; [1]] = true /\
+  c03_okb [[1]; [1]; [1]] (obs_calls_fast [2] [[1]; [1]; [1]]) = true /\
+  validb_nohs [3] [[1]; [1]; [1]; [1]] = true /\
+  c03_okb [[1]; [1]; [1]; [1]] (obs_calls_fast [3] [[1]; [1]; [1]; [1]]) = true /\
+  map (fun v => length (filter (fun o => Nat.eqb (last (hd [] (fst o)) 9) v) (obs_calls_fast [2] [[1]; [1]; [1]])))
+      [0; 1; 2] = [2; 2; 2].
+Proof. vm_compute. repeat split. Qed.
+
+(* and it rejects what a generator yields that drops the surplus stub of the highest-numbered vertex BEFORE the
+   shuffle (placements [0;1] and [1;0] only: not arrangements of the stub list) or after it but always the same *)
+Example C03_checker_rejects_biased_leftover :
+  c03_okb [[1]; [1]; [1]] [([[0; 1]], 1); ([[1; 0]], 1)] = false /\
+  c03_okb [[1]; [1]; [1]] [([[0; 1; 2]], 1); ([[1; 0; 2]], 1)] = false.
+Proof. vm_compute. split; reflexivity. Qed.
